@@ -17,7 +17,7 @@ mod verif_kani_month {
         kani::cover!(n == 12, "december wraps");
         assert!(mon_idx(m.succ()) == n % 12 + 1, "succ is +1 on the 12-cycle");
         assert!(mon_idx(m.pred()) == (n + 10) % 12 + 1, "pred is -1 on the 12-cycle");
-        assert!(m.succ().pred() == m && m.pred().succ() == m);
+        assert!(m.succ().pred() == m && m.pred().succ() == m, "m.succ().pred() == m && m.pred().succ() == m");
         assert!(m.number_from_month() == n as u32, "number_from_month");
     }
 
@@ -27,8 +27,8 @@ mod verif_kani_month {
         let v: u8 = kani::any();
         kani::cover!(v == 12); kani::cover!(v == 0);
         match Month::try_from(v) {
-            Ok(m) => assert!(v >= 1 && v <= 12 && mon_idx(m) == v),
-            Err(_) => assert!(v == 0 || v > 12),
+            Ok(m) => assert!(v >= 1 && v <= 12 && mon_idx(m) == v, "v >= 1 && v <= 12 && mon_idx(m) == v"),
+            Err(_) => assert!(v == 0 || v > 12, "v == 0 || v > 12"),
         }
     }
 
@@ -53,23 +53,23 @@ mod verif_kani_month {
     fn vk_month_from_primitive_provided() {
         let a: u32 = kani::any(); let b: i32 = kani::any(); let c: u8 = kani::any(); let d: i8 = kani::any();
         let e: u16 = kani::any(); let f: i16 = kani::any(); let g: usize = kani::any(); let h: isize = kani::any();
-        match Month::from_u32(a) { Some(m) => assert!(a >= 1 && a <= 12 && mon_idx(m) as u32 == a), None => assert!(a == 0 || a > 12) }
-        assert!(Month::from_i32(b).is_some() == (b >= 1 && b <= 12));
-        assert!(Month::from_u8(c).is_some() == (c >= 1 && c <= 12));
-        assert!(Month::from_i8(d).is_some() == (d >= 1 && d <= 12));
-        assert!(Month::from_u16(e).is_some() == (e >= 1 && e <= 12));
-        assert!(Month::from_i16(f).is_some() == (f >= 1 && f <= 12));
-        assert!(Month::from_usize(g).is_some() == (g >= 1 && g <= 12));
-        assert!(Month::from_isize(h).is_some() == (h >= 1 && h <= 12));
+        match Month::from_u32(a) { Some(m) => assert!(a >= 1 && a <= 12 && mon_idx(m) as u32 == a, "a >= 1 && a <= 12 && mon_idx(m) as u32 == a"), None => assert!(a == 0 || a > 12, "a == 0 || a > 12") }
+        assert!(Month::from_i32(b).is_some() == (b >= 1 && b <= 12), "Month::from_i32(b).is_some() == (b >= 1 && b <= 12)");
+        assert!(Month::from_u8(c).is_some() == (c >= 1 && c <= 12), "Month::from_u8(c).is_some() == (c >= 1 && c <= 12)");
+        assert!(Month::from_i8(d).is_some() == (d >= 1 && d <= 12), "Month::from_i8(d).is_some() == (d >= 1 && d <= 12)");
+        assert!(Month::from_u16(e).is_some() == (e >= 1 && e <= 12), "Month::from_u16(e).is_some() == (e >= 1 && e <= 12)");
+        assert!(Month::from_i16(f).is_some() == (f >= 1 && f <= 12), "Month::from_i16(f).is_some() == (f >= 1 && f <= 12)");
+        assert!(Month::from_usize(g).is_some() == (g >= 1 && g <= 12), "Month::from_usize(g).is_some() == (g >= 1 && g <= 12)");
+        assert!(Month::from_isize(h).is_some() == (h >= 1 && h <= 12), "Month::from_isize(h).is_some() == (h >= 1 && h <= 12)");
     }
 
     // fns: Months::new, Months::as_u32, derived Ord/Eq for Months
     #[kani::proof]
     fn vk_months_newtype() {
         let n: u32 = kani::any();
-        assert!(Months::new(n).as_u32() == n);
+        assert!(Months::new(n).as_u32() == n, "Months::new(n).as_u32() == n");
         let k: u32 = kani::any();
-        assert!((Months::new(n) < Months::new(k)) == (n < k) && (Months::new(n) == Months::new(k)) == (n == k));
+        assert!((Months::new(n) < Months::new(k)) == (n < k) && (Months::new(n) == Months::new(k)) == (n == k), "(Months::new(n) < Months::new(k)) == (n < k) && (Months::new(n) == Mon");
     }
 
     // C08: days in month agree with the calendar; None exactly when the year is outside NaiveDate's range
@@ -87,7 +87,7 @@ mod verif_kani_month {
             Some(d) => assert!(d as i64 == month_len(y as i64, n as i64), "num_days = calendar month length"),
             None => assert!(n == 2 && !in_range, "num_days is None only for February of an out-of-range year"),
         }
-        if in_range { assert!(r.is_some()); }
+        if in_range { assert!(r.is_some(), "r.is_some()"); }
     }
 
     // bounded: every ASCII string of at most 10 bytes
